@@ -7,6 +7,7 @@ package c10
 import (
 	"context"
 	"encoding/json"
+	"errors"
 	"fmt"
 	"hash/fnv"
 	"strings"
@@ -17,6 +18,7 @@ import (
 	"github.com/jamf/regatta/storage/table"
 	"github.com/jamf/regatta/storage/table/fsm"
 	"github.com/jamf/regatta/util/iter"
+	"github.com/lni/dragonboat/v4"
 	sm "github.com/lni/dragonboat/v4/statemachine"
 
 	. "verif/harness/cmdx"
@@ -132,6 +134,7 @@ func mk(c Case, reuse []*fsmx.Inst, base uint64) (sched.Scenario, *world) {
 	w.c = simraft.NewClusterAt(10001, base, w.insts...)
 	w.base = base
 	w.c.Eager = []bool{true, false}
+	w.c.ReadFaults = true
 	w.pending = len(c.Progs)
 	sc := sched.Scenario{Key: w.key}
 	for ci, p := range c.Progs {
@@ -229,6 +232,11 @@ func check(x sched.Exec, w *world, c Case) (vs []viol, outcome string) {
 	for _, r := range w.calls {
 		label := fmt.Sprintf("c%d.%d:%s@n%d", r.client, r.k, opName[r.op], r.node)
 		if r.err != nil {
+			if !r.mut && errors.Is(r.err, dragonboat.ErrTimeout) {
+				// an injected read-index timeout: refusing the read is correct
+				fmt.Fprintf(&sb, "%s=timeout;", label)
+				continue
+			}
 			vs = append(vs, viol{"call-error/" + opName[r.op], fmt.Sprintf("%s: %v", label, r.err)})
 			continue
 		}
@@ -349,7 +357,7 @@ func exploreCase(r *evid.Run, c Case) {
 
 func Run(r *evid.Run) {
 	r.Check = "c10"
-	r.Rule("scenarios = client programs over {put(prev), delete-range(prev,count), write txn, txn whose taken branch is empty, read-only txn with and without predicates, linearizable and serializable range, linearizable and serializable iterator} on colliding keys a,b: client A with 1-2 operations, client B with 1 operation (thorough: also a third client with 1 operation on the lagging node), each bound to the eager node 0 or the lagging node 1 (3 bindings); real table.ActiveTable and real FSM replicas over the simulated Raft host; scheduling points at invoke, append, wait-applied, read-index capture, lookup, first pull, return and every apply call of the lagging node, whose batch size {1, all pending} is a data choice; ALL interleavings with visited-state pruning on (log, replica positions, per-client response histories). Oracle from the log as ground truth: revision != 0 and = log index, every mutation response = model replay in index order, linearizable reads / read-only txns equal the model at some index in [commit@invoke, commit@return], serializable reads at some index <= commit@return. Non-trivial: every execution; distinct = distinct (scenario, revisions+responses)")
+	r.Rule("scenarios = client programs over {put(prev), delete-range(prev,count), write txn, txn whose taken branch is empty, read-only txn with and without predicates, linearizable and serializable range, linearizable and serializable iterator} on colliding keys a,b: client A with 1-2 operations, client B with 1 operation (thorough: also a third client with 1 operation on the lagging node), each bound to the eager node 0 or the lagging node 1 (3 bindings); real table.ActiveTable and real FSM replicas over the simulated Raft host; scheduling points at invoke, append, wait-applied, read-index capture, lookup, first pull, return and every apply call of the lagging node, whose batch size {1, all pending} is a data choice, and a linearizable read on a lagging replica may fail with a temporary read-index timeout (data choice: refusing the read is correct, answering from the lagging replica is not); ALL interleavings with visited-state pruning on (log, replica positions, per-client response histories). Oracle from the log as ground truth: revision != 0 and = log index, every mutation response = model replay in index order, linearizable reads / read-only txns equal the model at some index in [commit@invoke, commit@return], serializable reads at some index <= commit@return. Non-trivial: every execution; distinct = distinct (scenario, revisions+responses)")
 	p2, p1 := programs(2), programs(1)
 	bindings := [][2]int{{0, 1}, {1, 1}, {1, 0}}
 	var cases []Case
